@@ -14,7 +14,11 @@ interface Node {
   peer: Node
 }
 
-type A implements Node {
+interface Named {
+  name: String
+}
+
+type A implements Node & Named {
   id: ID!
   name: String
   peer: Node
@@ -32,7 +36,7 @@ type B implements Node {
   strict: Int!
 }
 
-type C {
+type C implements Named {
   id: ID!
   c: Color
   name: String
@@ -73,6 +77,8 @@ type Query {
   lst(xs: [Int!], m: [[Int]], ps: [P]): Int
   two(a: Int @darg, b: Int @darg, c: Int = 3 @darg): String
   alist: [A]
+  named: Named
+  nameds: [Named]
 }
 
 type Mutation {
@@ -108,6 +114,7 @@ K_DOCS = [
     "{ c { node { ...NF2 } } pet { ... on Node { id } } } fragment NF2 on Node { id ... on A { a } }",
     "{ nodes { ... on Node { peer { id } } ... on A { peer { name } } ... on B { peer { __typename } } } }",
     "{ a { ...PF peer { name } } b { ...PF peer { id } } } fragment PF on Node { peer { __typename } }",
+    "{ named { __typename name ... on Node { id } ... on C { c } } nameds { name ... on A { a } } node { ... on Named { name } } }",
     "query D($n: Int = 2) @dq { num @dq(n: $n) ...DF @dq ... @dq(t: \"x\") { color } } fragment DF on Query @dq { need(x: 1) }",
     "{ lst(xs: [1, 2], m: [[1], null], ps: [{a: 1, c: [2]}]) hello(e: BLUE, t: \"x\", p: {b: \"y\"}) }",
 ]
